@@ -182,6 +182,13 @@ func (v Val) Go() any {
 		return NamedStruct(int(v.I))
 	case "sharedptr":
 		return SharedPtr(int(v.I))
+	case "deep":
+		// a map nested v.I levels deep: {"d": {"d": ... {"leaf": v.I}}}
+		var cur any = map[string]any{"leaf": int(v.I)}
+		for i := int64(0); i < v.I; i++ {
+			cur = map[string]any{"d": cur}
+		}
+		return cur
 	case "ptr":
 		inner := v.A[0].Go()
 		p := reflect.New(reflect.TypeOf(inner))
@@ -229,7 +236,7 @@ type Site struct {
 	Links []string
 }
 
-var sharedPtrs = []*Site{{Name: "Acme", Year: 1999, Links: []string{"a", "b"}}, {Name: "Globex", Year: 2020}}
+var sharedPtrs = []*Site{{Name: "Acme", Year: 1999, Links: []string{"a", "b"}}, {Name: "Globex", Year: 2020, Links: []string{"x", "y", "z"}}}
 
 // SharedPtr returns the SAME pointer on every call: the one value that several concurrent
 // renders legitimately share when a caller passes a long-lived object in the data of each.
@@ -337,7 +344,10 @@ type Op struct {
 	W      *WriterFault `json:"w,omitempty"`
 	Recv   string       `json:"recv,omitempty"` // register: str arr int float bool
 	Fn     int          `json:"fn,omitempty"`   // register: id in the function catalogue
-	Call   *CallSpec    `json:"call,omitempty"` // C20: structure of the custom-function call in Src / in the page
+	// PreMutate: before the call the CALLER changes its own long-lived object (SharedPtr(1)) in place:
+	// element 0 of a nested slice becomes "v<PreMutate>". A render must reflect the data as it is now.
+	PreMutate int       `json:"premutate,omitempty"`
+	Call      *CallSpec `json:"call,omitempty"` // C20: structure of the custom-function call in Src / in the page
 }
 
 // evalPlain calls EvaluateString directly (no simulation task); used by models
@@ -414,6 +424,20 @@ func (w *SimWriter) Header() http.Header {
 func (w *SimWriter) WriteHeader(code int) { w.Status = code }
 func (w *SimWriter) Write(p []byte) (int, error) {
 	simrt.Yield(simrt.SiteUser)
+	// like net/http's response: a declared Content-Length is enforced, excess bytes are refused
+	if cl := w.Header().Get("Content-Length"); cl != "" {
+		var n int
+		if _, err := fmt.Sscanf(cl, "%d", &n); err == nil {
+			written := 0
+			for _, c := range w.Chunks {
+				written += len(c)
+			}
+			if written+len(p) > n {
+				w.Calls++
+				return 0, http.ErrContentLength
+			}
+		}
+	}
 	w.Calls++
 	w.Chunks = append(w.Chunks, string(p))
 	if w.Fault != nil && w.Fault.FailAt == w.Calls {
@@ -506,6 +530,9 @@ func (w *World) Do(op Op) (o Obs) {
 	if op.Data != nil {
 		data = op.Data.DataMap()
 		ref = op.Data.DataMap()
+	}
+	if op.PreMutate != 0 {
+		sharedPtrs[1].Links[0] = fmt.Sprintf("v%d", op.PreMutate)
 	}
 	o.Kind = "ok"
 	switch op.Kind {
